@@ -176,6 +176,11 @@ func (tb *TB) lenSym(v ssa.Value) (string, int64, bool) {
 	if t := tb.Term(v); t.Op == "List" {
 		return "0", int64(len(t.Args)), true
 	}
+	// make([]T, n): the length is n
+	if ms, ok := stripConv(v).(*ssa.MakeSlice); ok {
+		sy, off := linear(tb.Term(ms.Len))
+		return sy, off, false
+	}
 	return "len(" + tb.Term(v).Key() + ")", 0, false
 }
 
@@ -254,6 +259,18 @@ func (tb *TB) system(in ssa.Instruction) *dsys {
 						s.le("0", sym, 0)
 					}
 				}
+				if c.Op == token.REM {
+					// x % k with a positive constant k lies in (-k, k), in [0, k) for x >= 0
+					if k, ok := constInt(c.Y); ok && k > 0 {
+						sym := tb.Term(c).Key()
+						s.le(sym, "0", k-1)
+						if isUnsigned(c.X.Type()) {
+							s.le("0", sym, 0)
+						} else {
+							s.le("0", sym, k-1)
+						}
+					}
+				}
 				if c.Op == token.SHR {
 					if isUnsigned(c.X.Type()) {
 						sym := tb.Term(c).Key()
@@ -312,7 +329,7 @@ func (tb *TB) system(in ssa.Instruction) *dsys {
 					}
 				}
 				if okc && len(consts) > 0 && c.Comment != "rangeindex" {
-					sym := tb.Term(c).Key()
+					sym, off := linear(tb.Term(c)) // the counter may print as (RangeIdx + 1)
 					mn, mx := consts[0], consts[0]
 					for _, k := range consts {
 						if k < mn {
@@ -323,10 +340,10 @@ func (tb *TB) system(in ssa.Instruction) *dsys {
 						}
 					}
 					if up {
-						s.le("0", sym, -mn) // sym >= mn
+						s.le("0", sym, off-mn) // sym + off >= mn
 					}
 					if down {
-						s.le(sym, "0", mx) // sym <= mx
+						s.le(sym, "0", mx-off) // sym + off <= mx
 					}
 				}
 			case *ssa.Convert:
